@@ -52,7 +52,7 @@ func init() {
 		Batches:     tierN(192, 2048),
 		Helpers:     []string{"holder"},
 		Chunk:       8,
-		Floors:      []string{"tick-released>=3", "lock-fully-burnt", "lock-partially-burnt", "zero-amount-lock", "tick-below-until", "zero-lock-released"},
+		Floors:      []string{"tick-released>=3", "lock-fully-burnt", "lock-partially-burnt", "zero-amount-lock", "tick-below-until", "zero-lock-released", "nested-locks-released-by-one-tick"},
 		Run:         func(b *runner.Batch) { runBalance(b, "C09") },
 	})
 }
@@ -99,7 +99,7 @@ func (e *env) canonical(mode string) {
 	e.mintTo(mode, u1, 500)
 	e.mintTo(mode, u2, 800)
 	e.mintTo(mode, e.holder, 300)
-	e.mintTo(mode, e.bal, 200) // the contract's own address holds funds from the start
+	e.mintTo(mode, e.bal, 200)                                                                                 // the contract's own address holds funds from the start
 	e.xfer(mode, u0, u1, 100, []world.SignerSpec{world.G(e.users[0])})                                         // owner
 	e.xfer(mode, u0, u1, 100, []world.SignerSpec{world.G(e.stranger)})                                         // refused: foreign signer
 	e.xfer(mode, u0, u1, 100, []world.SignerSpec{world.Scoped(e.users[0], transaction.CustomContracts, e.nm)}) // refused: wrong scope
